@@ -331,6 +331,28 @@ def spelling_stream():
             yield [T("p1", name, nocmd=nocmd, deps=[("p1", "dtest")]), T("p1", "dtest")]
 
 
+# spellings for the three-output stream: siblings whose names sort between P and P/ in byte order
+# ("a-x", "a.d", "a b" < "a/b"), nested directories, files inside and beside a directory output
+TRI = [("d", "a"), ("d", "a/b"), ("d", "a-x"), ("d", "a.d"), ("d", "a b"), ("d", "a/b/c"), ("d", "ab"),
+       ("f", "a/b"), ("f", "a-x"), ("f", "a/b/f"), ("f", "a.d/f"), ("f", "ab")]
+
+
+def triple_stream():
+    """S2b: three targets with one output each (every ordered triple over TRI), unordered or with one
+    dependency edge; decides defects of conflict detection that depend on the whole SET of outputs
+    (sorting, early exits, grouping), which no pair-wise stream can show."""
+    for o1 in TRI:
+        for o2 in TRI:
+            for o3 in TRI:
+                for rel in ("none", "c->a"):
+                    a = T("p1", "a", outs=[o1])
+                    b = T("p1", "b", outs=[o2])
+                    c = T("p1", "c", outs=[o3])
+                    if rel == "c->a":
+                        c["deps"] = [lab(a)]
+                    yield [a, b, c]
+
+
 def product_sample(rng, count):
     """S3: seeded draws from the full product over <= 3 nodes: kind x package x duplicate-label
     flag x dependency subset x 0..2 output spellings x bin output x inputs x command."""
@@ -485,6 +507,10 @@ def run(out, tier):
         s1 = rng.sample(s1, 20000)
     streams += [("structure", g) for g in s1]
     streams += [("spelling", g) for g in spelling_stream()]
+    s2b = list(triple_stream())
+    if quick:
+        s2b = rng.sample(s2b, 1500)
+    streams += [("triple", g) for g in s2b]
     streams += [("product", g) for g in product_sample(rng, 20000 if quick else 600000)]
     streams += [("random", g) for g in random_graphs(rng, 3000 if quick else 60000)]
     graphs = [g for _, g in streams]
